@@ -130,7 +130,7 @@ def run(ck):
         gen_dir = None     # the other theorems are still checked, against the committed snapshot of the tables
     obl = ck.coq_properties(gen_dir=gen_dir) if gen_dir else ck.coq_properties()
     ck.log("theorems: %d, failed: %d" % (len(obl), len([o for o in obl if not o["ok"]])))
-    mfail = ck.coq_make(["theories/Fmt/TextModel.vo", "theories/Fmt/X86FmtModel.vo", "theories/Fmt/X86InstModel.vo", "theories/Fmt/A64FmtModel.vo", "theories/Fmt/LogLine.vo", "theories/Fmt/LabelVirt.vo", "theories/Fmt/DataNode.vo", "theories/Fmt/X86Explain.vo", "theories/Fmt/RegList.vo"])
+    mfail = ck.coq_make(["theories/Fmt/TextModel.vo", "theories/Fmt/X86FmtModel.vo", "theories/Fmt/X86InstModel.vo", "theories/Fmt/A64FmtModel.vo", "theories/Fmt/LogLine.vo", "theories/Fmt/LabelVirt.vo", "theories/Fmt/DataNode.vo", "theories/Fmt/X86Explain.vo", "theories/Fmt/RegList.vo", "theories/Fmt/VirtNames.vo", "theories/Fmt/FuncValue.vo", "theories/Fmt/LogOptions.vo", "theories/Fmt/Directives.vo"])
     if mfail:
         raise RuntimeError("model theories do not compile: %s %s" % (mfail, getattr(ck, "coq_log", "")[-800:]))
     model = ck.ocaml_model("Extract_Fmt.v", ["zconv.ml", "c20_driver.ml"], name="c20")
@@ -139,10 +139,8 @@ def run(ck):
     # the FIXED behaviour (a64_mem_toks true); a tree that drops the operator again disagrees with model, proven parser and python
     # reader on concrete operands -> VIOLATION key C20/a64-mem-extend-dropped/<op>
     margs = ["--a64-fixed"]
-    # embedded-data node: "TotalSize=" without the repeat count (pinned; recorded finding, fixes/C20-embed-node-totalsize.patch) or with it
-    probe = vlib.sh([impl], inp="Z 0 - 0 D 4 3 2\n", timeout=60)[1].strip()
-    if probe.endswith("TotalSize=24}"):
-        margs.append("--embed-total-fixed")
+    # embedded-data node: /repo prints TotalSize including the repeat count since 21e8af3; the model is the fixed behaviour
+    margs.append("--embed-total-fixed")
 
     if ck.replay:
         rp = json.load(open(ck.replay))
@@ -178,7 +176,11 @@ def run(ck):
     ses = [c for c in cmds if c[0] == "E"]
     ck.log("stream: %d commands (%d emitted through an Assembler session)" % (len(cmds), len(ses)))
     ri = run_exe(impl, par)
-    rm = run_exe(model, par, args=margs)
+    # FuncNode lines: the values the text has to denote are the ones the FuncDetail of the API reports (dumped by the harness); the model
+    # query is built from that dump and from python's reading of the TypeId enum
+    tnames = G.load_type_names(vlib.REPO)
+    par_m = par if isinstance(ri, tuple) else [G.func_model_cmd(c, x, tnames) if c.startswith("Q ") else c for c, x in zip(par, ri)]
+    rm = run_exe(model, par_m, args=margs)
     si = run_session(impl, ses) if ses else []
     sm = run_exe(model, ses, args=margs) if ses else []
     for nm, r in (("impl", ri), ("model", rm), ("impl-session", si), ("model-session", sm)):
@@ -192,8 +194,30 @@ def run(ck):
     disagreements = 0
     nontrivial = set()
     phase2 = []          # (origin command, impl answer, phase-2 command, expected answer or None)
+    abi_checked = abi_disagree = 0
     for cmd, x, y in zip(par, ri, rm):
         k = cmd[0]
+        if cmd.startswith("Q ") and " ##" in x:
+            x, fdump = x.split(" ##", 1)
+            try:
+                frets, fargs = G.parse_func_dump(fdump)
+            except Exception:
+                frets = fargs = None
+            vt = G.func_value_texts(x[2:])
+            if x == y and frets is not None and vt is not None and len(vt[0]) == len(frets) and len(vt[1]) == len(fargs):
+                # the proven reader on every value text AsmJit printed
+                arch = 6 if cmd.split()[2] == "6" else 2
+                for txt, v in zip(vt[0] + vt[1], frets + [p[0] for p in fargs]):
+                    phase2.append((cmd, "Q " + txt, G.func_value_words(v, tnames), "P Q %d | %s" % (arch, txt)))
+            elif x == y:
+                ck.violation("C20/func-node-split/%s" % re.sub(r"\s+", "_", cmd)[:120], "the FuncNode line %r does not split into the %s return and %s argument "
+                             "values of its FuncDetail" % (x[2:], len(frets or []), len(fargs or [])), {"command": cmd, "impl": x})
+            ex = G.abi_expect(cmd)
+            if ex is not None and frets is not None:
+                abi_checked += 1
+                got = ([v[1] for v in frets] or [None])[0], [p[0][1] for p in fargs]
+                if got != (ex[0], ex[1]):
+                    abi_disagree += 1       # the assignment itself is C06's subject; recorded, not judged here
         kinds[k] = kinds.get(k, 0) + 1
         if k in "OX":
             nontrivial.add(x)
@@ -253,7 +277,11 @@ def run(ck):
                              {"command": cmd, "impl": x, "model": y})
             elif k == "W" and G.virt_expect(cmd) is not None:
                 e = G.virt_expect(cmd)
-                phase2.append((cmd, x, y, "P W %d %s | %s" % (e[0], e[1], x[2:])))
+                venv = "%d %s" % (len(G.VREG_TABLE), " ".join("%d %s" % (vt, nm) for vt, nm in G.VREG_TABLE))
+                # one reader for physical / unnamed / named virtual registers (VirtNames.read_reg, proven for names over [A-Za-z0-9_.])
+                phase2.append((cmd, x, y, "P V %s %s | %s" % (venv, "R %d %d" % (e[1], e[2]) if e[0] == "R" else "V %d %s" % (e[0], e[1]), x[2:])))
+                if cmd.split()[5] == "-":
+                    phase2.append((cmd, x, y, "P W %d %s | %s" % (e[0], e[1], x[2:])))
             elif k == "B" and cmd.split()[2] == "3":
                 phase2.append((cmd, x, y, "P B %s %s | %s" % (cmd.split()[1], cmd.split()[6], x[2:])))
         if k in "OX":
@@ -315,6 +343,7 @@ def run(ck):
     mn_seen = {}
     named = 0
     e_err = {}
+    failed_msgs = []
     for ei, (cmd, x, y) in enumerate(zip(ses, si, sm)):
         kinds["E"] = kinds.get("E", 0) + 1
         m = re.match(r"E (\d+) (\S+) ?(.*)$", x)
@@ -324,8 +353,13 @@ def run(ck):
         err, hx, lg = int(m.group(1)), m.group(2), m.group(3)
         if err != 0:
             e_err[err] = e_err.get(err, 0) + 1
+            lg, _, emsg = lg.partition("## ")
+            lg = lg.rstrip(" ")
             if hx != "-" or lg:
                 ck.violation("C20/failed-emit-logged", "refused instruction left bytes or a log line: %r -> %r" % (cmd, x), {"command": cmd, "impl": x})
+            # the message handed to the error handler (EmitterUtils::log_instruction_failed): "<error name>: <instruction> [; comment]" - the
+            # instruction text has to be the one the model prints for the instruction that was refused
+            failed_msgs.append((ei, cmd, emsg, y))
             continue
         e_ok += 1
         e_arch[cmd.split()[1]] = e_arch.get(cmd.split()[1], 0) + 1
@@ -336,7 +370,7 @@ def run(ck):
         comment = G.e_comment(cmd)
         j = G.judge_log_line(cmd, hx, lg, mc, comment)
         if j is not None and j[0] is not None:
-            ck.violation(j[0], j[1] + " [model text: %s]" % y[2:], {"command": cmd, "impl": x, "model": y})
+            ck.violation(j[0] + "/" + re.sub(r"\s+", "_", cmd)[:120], j[1] + " [model text: %s]" % y[2:], {"command": cmd, "impl": x, "model": y})
             continue
         rel, imm, col = j[2] if j else (0, 0, "")
         if G.uses_named_label(cmd):
@@ -354,6 +388,300 @@ def run(ck):
         xcmd = "X %s 0 %s" % (cmd.split()[1], G.e_to_x(ses_eff[ei]))
         phase2.append((xcmd, "X " + itext, "X " + y[2:], "P X %s %s | %s" % (cmd.split()[1], G.e_to_x(ses_eff[ei]), itext)))
 
+    # ---------------------------------------------------------------- messages of refused instructions
+    fm_stat = {"messages": 0, "agree": 0, "agree_with_assembler_added_option": 0, "without_instruction_text": 0}
+    fm_alt = []
+
+    def plain_flags(c):
+        f_ = c.split()
+        f_[2] = "1024"          # log_instruction_failed formats with FormatFlags::kRegType only, whatever the logger's flags are
+        return " ".join(f_)
+    failed_msgs = [(ei, plain_flags(cmd), emsg, y) for ei, cmd, emsg, y in failed_msgs]
+    fy = run_exe(model, [fm[1] for fm in failed_msgs], args=margs) if failed_msgs else []
+    if isinstance(fy, tuple):
+        ck.violation("C20/harness-crash", "model driver failed on refused-instruction commands: %s" % (fy,), {"broken": "ml/c20_driver.ml"}, no_input=True)
+        failed_msgs, fy = [], []
+    failed_msgs = [(ei, cmd, emsg, y2) for (ei, cmd, emsg, _), y2 in zip(failed_msgs, fy)]
+    fm_model = {}
+    for ei, cmd, emsg, y in failed_msgs:
+        fm_model[ei] = y
+        fm_stat["messages"] += 1
+        comment = G.e_comment(cmd)
+        want = mtext(cmd, y) + ("" if comment == "-" else " ; " + comment)
+        name, sep, body = emsg.partition(": ")
+        if not sep or not re.fullmatch(r"[A-Za-z]+", name):
+            fm_stat["without_instruction_text"] += 1      # errors reported before an instruction is formatted
+            continue
+        if body == want:
+            fm_stat["agree"] += 1
+        else:
+            fm_alt.append((ei, cmd, body, comment))
+    if fm_alt:
+        alts = []
+        for ei, cmd, body, comment in fm_alt:
+            # the state the assembler changed itself before it gave up: rex / short / long options (x86), ldr/str.. -> ldur/stur.. when the scaled
+            # offset does not fit (a64: the message names the unscaled form it tried last)
+            mn_ = cmd.split()[4]
+            alts += [G.with_rex(cmd), G.with_opt(cmd, "short"), G.with_opt(cmd, "long"),
+                     G.with_mnem(cmd, G.A64_UNSCALED[mn_]) if cmd.split()[1] == "6" and mn_ in G.A64_UNSCALED else cmd]
+        am = run_exe(model, alts, args=margs)
+        if isinstance(am, tuple):
+            am = ["?"] * len(alts)
+        for k_, (ei, cmd, body, comment) in enumerate(fm_alt):
+            tail = "" if comment == "-" else " ; " + comment
+            if any(mtext(c2, a) + tail == body for c2, a in zip(alts[4 * k_:4 * k_ + 4], am[4 * k_:4 * k_ + 4])):
+                fm_stat["agree_with_assembler_added_option"] += 1
+            elif cmd.split()[1] == "6" and (int(cmd.split()[3]) >> 27) & 15 and re.sub(r"^(\w+)\.\w+( |$)", r"\1\2", mtext(cmd, fm_model[ei]) + tail) == body:
+                # independent rule: the message of a refused CONDITIONAL instruction has to name the condition (the a64 assembler strips it from the id
+                # at entry and passes the stripped id to log_instruction_failed). Fix proposed: fixes/C20-a64-failed-message-drops-cond.patch
+                ck.violation("C20/a64-failed-message-drops-cond", "the error message of the refused %r names %r: the condition code of %r is missing"
+                             % (cmd, body, mtext(cmd, fm_model[ei])), {"command": cmd, "impl": si[ei], "model": fm_model[ei]})
+            else:
+                ck.violation("C20/failed-emit-message/%s" % re.sub(r"\s+", "_", cmd)[:120], "the error message of the refused %r names the instruction %r; the model prints %r"
+                             % (cmd, body, mtext(cmd, fm_model[ei]) + tail), {"command": cmd, "impl": si[ei], "model": fm_model[ei]})
+
+    # ---------------------------------------------------------------- logger options: indentation and paddings (LogOptions.v)
+    lo_stat = {"instruction_lines": 0, "label_lines": 0, "agree": 0, "split_back": 0}
+    cand = [i for i, (cmd, x, y) in enumerate(zip(ses, si, sm)) if x.startswith("E 0 ") and ses_eff[i] == ses[i] and not G.uses_named_label(cmd)
+            and not re.search(r"\bL\d", y)]
+    lo = []
+    for i in rng.sample(cand, min(len(cand), 600 if ck.tier == "quick" else 4000)):
+        ind, p1, p2 = rng.choice([0, 1, 2, 4, 7, 15]), rng.choice([0, 0, 1, 20, 44, 60, 100]), rng.choice([0, 0, 1, 10, 26, 40])
+        lo.append(("EO %d %d %d %s" % (ind, p1, p2, ses[i][2:]), i, ind, p1, p2))
+    for _ in range(60):
+        ind, p1, p2 = rng.choice([0, 1, 3, 8]), rng.choice([0, 1, 12, 44, 70]), rng.choice([0, 5, 26, 33])
+        lo.append(("EB %d %d %d %d %s" % (ind, p1, p2, rng.choice([0, 1]), rng.choice(["-", "-", "entry", "loop_head", "x"])), None, ind, p1, p2))
+    la = run_session(impl, [c[0] for c in lo]) if lo else []
+    if isinstance(la, tuple):
+        ck.violation("C20/harness-crash", "harness failed on logger-option commands: %s" % (la,), {"broken": "harness"}, no_input=True)
+        la = []
+    lo_q, lo_g = [], []
+    for (c, i, ind, p1, p2), a in zip(lo, la):
+        if c.startswith("EB "):
+            m = re.match(r"EB 0 (\d+) (.*)$", a)
+            if not m:
+                ck.violation("C20/protocol", "harness answered %r to %r" % (a, c), {"command": c, "impl": a}, no_input=True)
+                continue
+            f = c.split()
+            lo_q.append((c, m.group(2), "FL %d %d %d %s %s %s" % (ind, p1, p2, f[4], m.group(1), f[5])))
+            continue
+        m = re.match(r"E 0 (\S+) (.*)$", a)
+        if not m:
+            ck.violation("C20/log-options/emit", "the instruction of %r is not emitted any more with logger options set: %r" % (c, a), {"command": c, "impl": a})
+            continue
+        hx, lg = m.group(1), m.group(2)
+        mc = int(ses[i].split()[2]) & 1
+        comment = G.e_comment(ses[i])
+        lo_q.append((c, lg, "FI %d %d %d %d %s 0 0 %s | %s" % (ind, p1, p2, mc, hx, comment, sm[i][2:])))
+        if mc and hx != "-":
+            lo_g.append((c, lg, "%d|%s|%s|%s" % (ind, sm[i][2:], hx.upper(), "" if comment == "-" else comment)))
+    lm = run_exe(model, [q[2] for q in lo_q] + ["GI | %s" % g[1] for g in lo_g], args=margs) if lo_q else []
+    if isinstance(lm, tuple):
+        ck.violation("C20/harness-crash", "model driver failed on logger-option commands: %s" % (lm,), {"broken": "ml/c20_driver.ml"}, no_input=True)
+        lm = []
+    for (c, lg, q), a in zip(lo_q, lm[:len(lo_q)]):
+        lo_stat["label_lines" if c.startswith("EB ") else "instruction_lines"] += 1
+        nontrivial.add(lg)
+        if a.split(" ", 1)[1] == lg:
+            lo_stat["agree"] += 1
+        else:
+            ck.violation("C20/log-options/%s" % re.sub(r"\s+", "_", c)[:140], "logger line with indentation/padding options differs from the model: %r impl %r model %r"
+                         % (c, lg, a.split(" ", 1)[1]), {"command": c, "impl": lg, "model": a})
+    for (c, lg, want), a in zip(lo_g, lm[len(lo_q):]):
+        if a == "GI " + want:
+            lo_stat["split_back"] += 1
+        else:
+            ck.violation("C20/log-options-parse/%s" % re.sub(r"\s+", "_", c)[:140], "the logger line %r of %r splits back (proven splitter) into %r, expected %r"
+                         % (lg, c, a[3:], want), {"command": c, "impl": lg})
+
+    # ---------------------------------------------------------------- AArch64 virtual registers under kRegType: independent rule "the 32-bit and the
+    # 64-bit view of one virtual register print differently when the register type is asked for" (x86 prints @gpd / @gpq)
+    if not isinstance(ri, tuple):
+        w6 = {}
+        for cmd, x in zip(par, ri):
+            if cmd.startswith("W6 "):
+                f = cmd.split()
+                if int(f[1]) & 1024 and f[5] != "!" and f[2] in ("5", "6"):
+                    w6.setdefault((f[1], f[3], f[5], f[6], f[7]), {})[f[2]] = (cmd, x)
+        for k6, d in sorted(w6.items()):
+            if len(d) == 2 and d["5"][1] == d["6"][1]:
+                ck.violation("C20/a64-virt-reg-size-not-shown", "with kRegType set the w view and the x view of virtual register %s print alike: %r and %r both give %r"
+                             % (k6[2] if k6[2] != "-" else "%" + k6[1], d["5"][0], d["6"][0], d["5"][1][3:]), {"commands": [d["5"][0], d["6"][0]], "impl": d["5"][1]})
+
+    # ---------------------------------------------------------------- non-instruction lines an Assembler logs: align, embed, embed_data_array,
+    # embed_label, embed_label_delta, comment (Directives.v / DataNode.v); every line has to denote what was really appended
+    dd_stat = {"lines": 0, "agree": 0, "refused": 0, "data_lines_denote_appended_bytes": 0, "align_lines_read_back": 0, "label_lines_read_back": 0}
+    dcmds = G.gen_directive_cmds(rng, 400 if ck.tier == "quick" else 4000)
+    da_ = run_session(impl, dcmds)
+    dm_ = run_exe(model, dcmds, args=margs)
+    if isinstance(da_, tuple) or isinstance(dm_, tuple):
+        ck.violation("C20/harness-crash", "directive commands failed: %s %s" % (da_ if isinstance(da_, tuple) else "", dm_ if isinstance(dm_, tuple) else ""),
+                     {"broken": "harness"}, no_input=True)
+        da_ = dm_ = []
+    dq = []
+    for c, a, y in zip(dcmds, da_, dm_):
+        m = re.match(r"ED (\d+) (\S+) (\d+) (\d+) ?(.*)$", a)
+        if not m:
+            ck.violation("C20/protocol", "harness answered %r to %r" % (a, c), {"command": c, "impl": a}, no_input=True)
+            continue
+        err, hx, before, after, lg = int(m.group(1)), m.group(2), int(m.group(3)), int(m.group(4)), m.group(5)
+        f = c.split()
+        kind = f[4]
+        if err != 0:
+            dd_stat["refused"] += 1
+            if hx != "-" or lg:
+                ck.violation("C20/failed-directive-logged/%s" % re.sub(r"\s+", "_", c), "refused directive left bytes or a log line: %r -> %r" % (c, a), {"command": c, "impl": a})
+            continue
+        dd_stat["lines"] += 1
+        nontrivial.add(lg)
+        key = re.sub(r"\s+", "_", c)[:120]
+        want_line = y[3:]
+        if kind == "A" and int(f[6]) <= 1:
+            want_line = ""                       # align 1 is a no-op on both back ends: nothing appended, nothing logged
+        if kind == "A" and f[1] == "6" and int(f[6]) > 1 and after == before and lg == "":
+            # independent rule: an accepted align directive has to be in the log (x86 logs it; a64 returns before the logging block when
+            # no padding is needed). Fix proposed: fixes/C20-a64-align-not-logged.patch; the model is the fixed behaviour.
+            ck.violation("C20/a64-align-not-logged", "a64::Assembler::align(%s, %s) at the already aligned offset %d is accepted but not logged (x86 logs 'align %s'): %r -> %r"
+                         % (f[5], f[6], before, f[6], c, a), {"command": c, "impl": a})
+            continue
+        if lg != want_line:
+            ck.violation("C20/directive/" + key, "logged directive line differs from the model: %r impl %r model %r" % (c, lg, want_line), {"command": c, "impl": a, "model": y})
+            continue
+        dd_stat["agree"] += 1
+        body = lg[:-1] if lg.endswith("$") else lg
+        if kind == "A":
+            n = int(f[6])
+            if after % n != 0 or after - before >= n:
+                ck.violation("C20/directive-align/" + key, "%r logged %r but the offset went from %d to %d" % (c, lg, before, after), {"command": c, "impl": a})
+            if n > 1:
+                dq.append((c, a, "%d %d" % (int(f[3]), n), "P ED %s A | %s" % (f[1], body)))
+        elif kind in "BT":
+            dq.append((c, a, hx, "P D | %s" % body))
+        elif kind == "L":
+            if after - before != int(f[6]):
+                ck.violation("C20/directive-size/" + key, "%r logged %r but %d bytes were appended" % (c, lg, after - before), {"command": c, "impl": a})
+            dq.append((c, a, "%s %s" % (f[6], f[5]), "P ED %s L | %s" % (f[1], body)))
+        elif kind == "D":
+            if after - before != int(f[7]):
+                ck.violation("C20/directive-size/" + key, "%r logged %r but %d bytes were appended" % (c, lg, after - before), {"command": c, "impl": a})
+            dq.append((c, a, "%s %s %s" % (f[7], f[5], f[6]), "P ED %s D | %s" % (f[1], body)))
+    dp = run_exe(model, [q[3] for q in dq], args=margs) if dq else []
+    if isinstance(dp, tuple):
+        ck.violation("C20/harness-crash", "model driver failed on directive readers: %s" % (dp,), {"broken": "ml/c20_driver.ml"}, no_input=True)
+        dp = []
+    for (c, a, want, q), got in zip(dq, dp):
+        kind = c.split()[4]
+        key = re.sub(r"\s+", "_", c)[:120]
+        if kind in "BT":
+            b = G.directive_bytes_from_parsed(got)
+            if b is not None and b.hex() == want:
+                dd_stat["data_lines_denote_appended_bytes"] += 1
+            else:
+                ck.violation("C20/directive-data/" + key, "%r: the logged line %r reads (proven parse_data) as %r = bytes %s; appended were %s"
+                             % (c, q.split(" | ", 1)[1], got[2:], b.hex() if b is not None else None, want), {"command": c, "impl": a})
+        elif got == "P " + want:
+            dd_stat["align_lines_read_back" if kind == "A" else "label_lines_read_back"] += 1
+        else:
+            ck.violation("C20/directive-parse/" + key, "%r: the logged line %r reads back (proven reader) as %r, expected %r" % (c, q.split(" | ", 1)[1], got[2:], want),
+                         {"command": c, "impl": a})
+
+    # ---------------------------------------------------------------- annotated Compiler output (kRAAnnotate [+ kRADebugLiveness]): whole functions
+    ka_stat = {"functions": 0, "lines": 0, "annotations_agree": 0, "bytes_agree": 0, "lines_split_back": 0, "instructions_denoted": 0, "refused": 0}
+    progs = G.gen_annotated_programs(rng, isa, 150 if ck.tier == "quick" else 1500)
+    # AArch64 functions: there is no Coq model of a whole a64 line with virtual registers; the expected annotation is the model's physical line of the
+    # instruction with the virtual ids (w256, x259, ...) replaced by python with the names the harness gave the registers
+    progs += [(c, ["X 6 %s %s" % (c.split()[1], b) for b in bodies]) for c, bodies in G.gen_annotated_programs_a64(rng, isa64, 100 if ck.tier == "quick" else 1000)]
+    a64_names = {"256": "a", "257": "b", "258": "%2", "259": "p"}
+    ka = run_exe(impl, [pg[0] for pg in progs])
+    if isinstance(ka, tuple):
+        ck.violation("C20/harness-crash", "harness failed on annotated-function commands: %s" % (ka,), {"broken": "harness"}, no_input=True)
+        ka = []
+    kq, kjobs = [], []
+    for (c, kcmds), a in zip(progs, ka):
+        m = re.match(r"KA6? (\d+) (\S+) (.*)$", a)
+        if not m:
+            ck.violation("C20/protocol", "harness answered %r to %r" % (a, c), {"command": c, "impl": a}, no_input=True)
+            continue
+        if m.group(1) != "0":
+            ka_stat["refused"] += 1
+            continue
+        mc = int(c.split()[1]) & 1
+        sp = G.split_annotated_log(m.group(3), mc)
+        if sp is None:
+            ck.violation("C20/annotated-log/shape/%s" % re.sub(r"\s+", "_", c)[:120], "a line of the annotated log of %r is not 'text ; [column |] comment': %r"
+                         % (c, m.group(3)), {"command": c, "impl": a})
+            continue
+        ka_stat["functions"] += 1
+        ka_stat["lines"] += len(sp)
+        nontrivial.update(l[0] for l in sp)
+        job = {"cmd": c, "impl": a, "hex": m.group(2), "mc": mc, "lines": sp, "k0": len(kq), "kcmds": kcmds, "a64": c.startswith("KA6 ")}
+        kq += kcmds
+        # our instructions = the annotated lines that are neither RA-inserted (<LOAD>/<MOVE>/...), nor labels, nor the function header / return
+        ann = lambda cm: (cm or "").split(" | ")[0].rstrip(" ")
+        job["ours"] = [l for l in sp if l[3] is not None and not re.match(r"^(<[A-Z]+>|L\d+:|\[Func)", ann(l[3]))]
+        job["x0"] = len(kq)
+        kq += ["P %s | %s" % ("XS6" if job["a64"] else "XS", l[1]) for l in job["ours"]]
+        job["g0"] = len(kq)
+        job["glines"] = [l for l in sp if mc and l[2]] 
+        kq += ["GI | %s$" % l[0] for l in job["glines"]]
+        kjobs.append(job)
+    km = run_exe(model, kq, args=margs) if kq else []
+    if isinstance(km, tuple):
+        ck.violation("C20/harness-crash", "model driver failed on annotated-function commands: %s" % (km,), {"broken": "ml/c20_driver.ml"}, no_input=True)
+        kjobs = []
+    for job in kjobs:
+        c = job["cmd"]
+        key = re.sub(r"\s+", "_", c)[:120]
+        ann = lambda cm: (cm or "").split(" | ")[0].rstrip(" ")
+        want = [y[2:] for y in km[job["k0"]:job["k0"] + len(job["kcmds"])]]
+        if job["a64"]:
+            want = [re.sub(r"\b[wx](25[6-9])\b", lambda mm: a64_names[mm.group(1)], w_) for w_ in want]
+        got = [ann(l[3]) for l in job["ours"]]
+        # the allocator drops a register-to-register move whose two virtual registers got the same physical register: such an instruction
+        # may be missing from the log; everything else has to be there, in order
+        kept, gi, bad = [], 0, None
+        for kc, w in zip(job["kcmds"], want):
+            if gi < len(got) and got[gi] == w:
+                kept.append(kc); gi += 1
+            elif re.search(r" (mov|movaps) 0 N 2 R \d+ \d+ R \d+ \d+$", kc):
+                ka_stat["moves_elided"] = ka_stat.get("moves_elided", 0) + 1
+            else:
+                bad = (gi, w)
+                break
+        if bad is None and gi != len(got):
+            bad = (gi, None)
+        if bad is None:
+            ka_stat["annotations_agree"] += 1
+            job["kcmds"] = kept
+        else:
+            d = bad[0]
+            ck.violation("C20/annotated-log/annotation/" + key, "function %r: annotation #%d in the log is %r, the instruction given to the Compiler prints (model) %r"
+                         % (c, d, got[d] if d < len(got) else None, bad[1]), {"command": c, "impl": job["impl"]})
+            continue
+        if job["mc"]:
+            cols = "".join(l[2] or "" for l in job["lines"])
+            bufhex = "" if job["hex"] == "-" else job["hex"]
+            # '.' stands for a displacement that was not known when the line was logged (forward jump): those positions are not compared
+            if len(cols) == len(bufhex) and all(cc_ == "." or cc_.lower() == bc_ for cc_, bc_ in zip(cols, bufhex)):
+                ka_stat["bytes_agree"] += 1
+            else:
+                ck.violation("C20/annotated-log/bytes/" + key, "function %r: the machine-code columns of the log concatenate to %s, the code buffer holds %s"
+                             % (c, cols, job["hex"]), {"command": c, "impl": job["impl"]})
+        for l, a in zip(job["glines"], km[job["g0"]:job["g0"] + len(job["glines"])]):
+            w = "GI %d|%s|%s|%s" % (len(l[1]) - len(l[1].lstrip(" ")), l[1].lstrip(" "), l[2], l[3] or "")
+            if a == w:
+                ka_stat["lines_split_back"] += 1
+            else:
+                ck.violation("C20/annotated-log/split/" + key, "function %r: the proven splitter reads the line %r as %r, expected %r" % (c, l[0], a[3:], w[3:]),
+                             {"command": c, "impl": job["impl"]})
+        for l, kc, a in zip(job["ours"], job["kcmds"], km[job["x0"]:job["x0"] + len(job["ours"])]):
+            why = "not parsed" if a == "P <no parse>" else (G.annotated_inst_mismatch_a64(kc.split(" ", 3)[3], a[2:]) if job["a64"] else G.annotated_inst_mismatch(kc, a[2:], G.annotated_trampolines(job["lines"])))
+            if why is None:
+                ka_stat["instructions_denoted"] += 1
+            else:
+                ck.violation("C20/annotated-log/instruction/" + key, "function %r: the logged line %r (annotation %r) does not denote the annotated instruction with its "
+                             "virtual registers allocated: %s [proven parser: %s]" % (c, l[1], ann(l[3]), why, a[2:]), {"command": c, "impl": job["impl"]})
+
     # ---------------------------------------------------------------- cosmetic flags (compared, not modelled): kShowAliases, kExplainImms
     cos = G.gen_cosmetic_cmds(rng, isa)
     aliases = G.load_x86_aliases(vlib.REPO)
@@ -370,9 +698,10 @@ def run(ck):
             if j:
                 ck.violation(j[0], j[1], {"command": fc, "impl": fa, "plain": pa})
 
-    # ---------------------------------------------------------------- thorough: llvm-mc as a third, independent reading of the lines
+    # ---------------------------------------------------------------- llvm-mc as a third, independent reading of the x86 Intel lines
+    # (quick: a sample of 2000 lines, 60 re-decoded; thorough: all). Evidence only: no verdict comes from it.
     llvm = {}
-    if ck.tier == "thorough":
+    if True:
         cand = []
         for cmd, x in zip(ses, si):
             m = re.match(r"E 0 (\S+) (.*)$", x)
@@ -380,6 +709,8 @@ def run(ck):
                 itext = re.split(r" *(;|\$)", m.group(2), 1)[0]
                 if not re.search(r"\bL\d", itext):
                     cand.append((itext, m.group(1).lower()))
+        if ck.tier == "quick":
+            cand = rng.sample(cand, min(len(cand), 2000))
         enc = []
         for i in range(0, len(cand), 4000):
             enc += G.llvm_assemble([G.llvm_strip_options(t) for t, _ in cand[i:i + 4000]], vlib.sh)
@@ -392,6 +723,9 @@ def run(ck):
         else:
             # other bytes: the same instruction in another encoding? decode both with llvm-mc and compare
             other = [(t, hx, "".join(e)) for (t, hx), e in zip(cand, enc) if e and e != [hx]]
+            llvm["llvm_mc_other_bytes"] = len(other)
+            if ck.tier == "quick":
+                other = other[:60]
             da = G.llvm_disasm([hx for _, hx, _ in other], vlib.sh)
             db = G.llvm_disasm([e for _, _, e in other], vlib.sh)
             alt = und = quirk = 0
@@ -433,6 +767,14 @@ def run(ck):
             else:
                 ck.violation("C20/data-parse/%s" % re.sub(r"\s+", "_", cmd)[:120],
                              "format_data prints %r for %r; the proven parser reads %r, the bytes are %r" % (x[2:], cmd, a, G.data_expect(cmd)),
+                             {"command": cmd, "impl": x})
+            continue
+        if k == "P" and pc.startswith("P Q "):
+            if a == "P " + y:
+                parsed_ok += 1
+            else:
+                ck.violation("C20/func-value-parse/%s" % re.sub(r"\s+", "_", cmd + "/" + x[2:])[:140],
+                             "the function value %r printed in the FuncNode line of %r reads back as %r; the FuncDetail says %r" % (x[2:], cmd, a[2:], y),
                              {"command": cmd, "impl": x})
             continue
         if k == "P" and cmd[0] in "WB":
@@ -505,8 +847,10 @@ def run(ck):
                  "templates really emitted with a StringLogger); distinct_nontrivial counts distinct texts produced by the implementation",
          "samples": samples, "commands_by_kind": kinds, "emitted_ok": e_ok, "emitted_ok_by_arch": {"x86-64": e_arch.get("2", 0), "aarch64": e_arch.get("6", 0)}, "emitted_with_named_labels": named, "assembler_added_rex_option": rex_added, "assembler_added_short_option": short_added, "assembler_chose_unscaled_form": unscaled_renamed, "emit_refused_by_error": {str(k): v for k, v in sorted(e_err.items())},
          "texts_parsed_back_by_proven_parser": parsed_ok, "unsupported": unsupported,
+         "func_node_abi_cross_check": {"signatures_with_python_abi_table": abi_checked, "assignment_differs_from_table": abi_disagree,
+                                       "note": "evidence only: the argument assignment is property C06's subject; here the text has to denote the FuncDetail"},
          "traces_validated_against_impl": len(cmds), "model_vs_impl_disagreements": disagreements,
-         "coverage_floor": {k: {"measured": v[0], "floor": v[1]} for k, v in floor.items()}, "cosmetic_flags_compared": cos_stat, "llvm_mc_third_reading": llvm, "isa_db_forms": len(forms or []), "a64_isa_db_forms": len(forms64 or []), "emitted_distinct_mnemonics": {"x86-64": len(mn_seen.get("2", ())), "aarch64": len(mn_seen.get("6", ()))}, "instruction_names": len(isa), "a64_instruction_names": len(isa64)},
+         "coverage_floor": {k: {"measured": v[0], "floor": v[1]} for k, v in floor.items()}, "cosmetic_flags_compared": cos_stat, "logger_options_compared": lo_stat, "refused_instruction_messages": fm_stat, "annotated_compiler_functions": ka_stat, "assembler_directive_lines": dd_stat, "llvm_mc_third_reading": llvm, "isa_db_forms": len(forms or []), "a64_isa_db_forms": len(forms64 or []), "emitted_distinct_mnemonics": {"x86-64": len(mn_seen.get("2", ())), "aarch64": len(mn_seen.get("6", ()))}, "instruction_names": len(isa), "a64_instruction_names": len(isa64)},
         assumptions=["the C++ harness calls the real functions of /repo's working tree (Formatter::format_operand/format_instruction, String::append_uint, "
                      "x86::Assembler::_emit with a StringLogger; reg_format_info via #include of x86formatter.cpp)",
                      "theorems are about the Gallina model; the model is tied to the code by the table translator and the text differential of this check",
